@@ -118,3 +118,19 @@ Fixpoint all_res {X} (l : list X) (f : X -> res bool) : res bool :=
 (* ---------- lib.rs: contains, resize ---------- *)
 Definition vec_contains {A} (eqT : A -> A -> bool) (l : list A) (v : A) : bool := existsb (fun x => eqT x v) l.
 Definition vec_truncate {A} (l : list A) (n : Z) : list A := zfirstn n l.
+
+(* ---------- convert.rs: rows ---------- *)
+Definition rows_first_len {A} (rows : list (list A)) : Z := match rows with [] => 0 | r :: _ => zlen r end.
+Definition vec_extend {A} (l r : list A) : list A := l ++ r.
+(* for x in rows { body }: the loop state threaded through the rows ... *)
+Fixpoint for_rows {X S} (l : list X) (s : S) (body : X -> S -> res S) : res S :=
+  match l with
+  | [] => Val s
+  | x :: t => let* s' := body x s in for_rows t s' body
+  end.
+(* ... and the same when the body may `return Err(e)` from the function: the first Err ends the loop *)
+Fixpoint for_try {X S} (l : list X) (s : S) (body : X -> S -> res (result S)) : res (result S) :=
+  match l with
+  | [] => Val (Ok s)
+  | x :: t => let* r := body x s in match r with Ok s' => for_try t s' body | Err e => Val (Err e) end
+  end.
